@@ -190,8 +190,13 @@ Definition check_case (c : case) : bool :=
         | PickOk m _, Ok got =>
           if forallb (fun c => match b_slot c with None => true | Some _ => false end) cmds
           then forallb (fun g => match first_of g with Some a => mem_addr a conns | None => true end) got
-          else forallb (fun ag => forallb (fun ic => match nth_error got (fst ic) with
-                                                      | Some g => cdest_ok kind groups (b_slot (snd ic)) conns (CNode (Some (fst ag))) g
+          else
+            (* a command without key slot travels with the batch's slot (the first keyed command's); under
+               ReplicaOnly the replica of that shard is a random draw *)
+            let bslot := hd_error (flat_map (fun c => match b_slot c with Some s => [s] | None => [] end) cmds) in
+            let slot_of c := match b_slot c with Some s => Some s | None => bslot end in
+            forallb (fun ag => forallb (fun ic => match nth_error got (fst ic) with
+                                                      | Some g => cdest_ok kind groups (slot_of (snd ic)) conns (CNode (Some (fst ag))) g
                                                       | None => false
                                                       end) (rg_cmds (snd ag))) m
         | PickNone, Ok got => forallb (fun g => match g with [] => true | _ => false end) got
